@@ -11,8 +11,6 @@ theorem ofBE_be4 (n : Nat) (h : n < 2^32) : ofBE (be4 n) = n := by
 theorem ofLE_le4 (n : Nat) (h : n < 2^32) : ofLE (le4 n) = n := by
   simp only [ofLE, le4]; omega
 
-theorem take_len_append (a b : List Nat) : (a ++ b).take a.length = a := by simp
-
 theorem encodeEbyte_length (id : Nat) (data : Bytes) (h : data.length ≤ 8) :
     (encodeEbyte id data).length = 13 := by
   simp [encodeEbyte, be4]; omega
